@@ -47,6 +47,7 @@ func famC10(g *Gen, o *Out, n int, thorough bool) {
 		if codec == "sorted" {
 			wopts = append(wopts, carv2.UseIndexCodec(multicodec.CarIndexSorted))
 		}
+		x0 := x // before any null padding: what the option-less file API gets
 		z := 0
 		if g.pick(3) == 0 { // a null-padded source, read with ZeroLengthSectionAsEOF
 			x = append(append([]byte{}, x...), make([]byte, []int{1, 2, 5, 64}[g.pick(4)])...)
@@ -62,6 +63,31 @@ func famC10(g *Gen, o *Out, n int, thorough bool) {
 		o.Line(fmt.Sprintf("xform op=wrap codec=%s sid=%d z=%d mcs=1048576 roots=%s blocks=%s in=%s", codec, b2i(sid), z, rootsArg(roots),
 			blocksStr(bs), hex.EncodeToString(x)), res)
 		o.Count("wrap/" + codec)
+		// --- WrapV1File: the same transform through the file API, onto an absent, a larger and a
+		// smaller pre-existing destination (the destination is overwritten: nothing of it may survive)
+		for _, dst := range []string{"absent", "larger", "smaller"} {
+			sp := tmpPath("c10-wsrc.car")
+			dpth := tmpPath("c10-wdst.car")
+			os.WriteFile(sp, x0, 0o644)
+			os.Remove(dpth)
+			switch dst {
+			case "larger":
+				os.WriteFile(dpth, g.bytes(2*len(x0)+400+g.pick(800)), 0o644)
+			case "smaller":
+				os.WriteFile(dpth, g.bytes(1+g.pick(60)), 0o644)
+			}
+			ferr := carv2.WrapV1File(sp, dpth) // takes no options: library defaults
+			fres := "r=" + classifyIdx(ferr)
+			if ferr == nil {
+				out, _ := os.ReadFile(dpth)
+				fres = "r=ok out=" + hexOr(out)
+			}
+			o.Line(fmt.Sprintf("xform op=wrap dst=%s codec=mh sid=0 z=0 mcs=2048 roots=%s blocks=%s in=%s", dst, rootsArg(roots),
+				blocksStr(bs), hex.EncodeToString(x0)), fres)
+			o.Count("wrapfile/" + dst)
+			os.Remove(sp)
+			os.Remove(dpth)
+		}
 		// --- ExtractV1File over several CARv2 shapes and destination states
 		var srcs [][]byte
 		if err == nil {
